@@ -254,6 +254,17 @@ def gen_settings(rng, max_pto=2, allow_n3lo=False, cheap=False):
                 if rng.random() < 0.5:
                     th["FNS"] = rng.choice(["FONLL-FFNS", "FONLL-FFN0", "FFNS"])
                     th["NfFF"] = 5
+    # keys the runner never reads: real theory / observable cards (the NNPDF theory database, yadmark's
+    # generated cards) carry IDs, comments, flags and lists that the runner has to echo and the two formats have
+    # to carry unchanged.  Values are whatever YAML can hold: strings that look like numbers or YAML keywords,
+    # None, bools, nested containers, long flat lists mixing ints, floats and bools (seeded change
+    # c15-bulk-cast-of-long-card-lists: a homogenising cast of lists longer than 32 was invisible without them)
+    if rng.random() < 0.35:
+        for _ in range(rng.randint(1, 3)):
+            k, v = gen_foreign_entry(rng)
+            (th if rng.random() < 0.6 else ob)[k] = v
+    if rng.random() < 0.12 and ob["interpolation_xgrid"][-1] == 1.0:
+        ob["interpolation_xgrid"][-1] = 1  # hand-written cards end the grid with a plain 1
     # optional keys may simply be absent (the runner falls back to defaults for these)
     for k in ("MZ", "SIN2TW"):
         if rng.random() < 0.12:
@@ -275,6 +286,27 @@ def gen_settings(rng, max_pto=2, allow_n3lo=False, cheap=False):
         ob["interpolation_is_log"] = True
         ob["interpolation_polynomial_degree"] = rng.randint(1, 3)
     return th, ob
+
+
+def gen_foreign_entry(rng):
+    """One (key, value) a card may carry although the runner never reads it."""
+    n = rng.randint(33, 45)
+    pool = [
+        ("ID", rng.choice([208, 40000000, "208"])),
+        ("Comments", rng.choice(["NNPDF4.0 NLO alphas=0.118", "caf\u00e9 \u2014 t\u00e9st: x, y # not a comment", "", "no", "~", "1e5", "on",
+                                 "0x1F", "1_000", "null", "3.0", " leading blank", "multi\nline\ttext"])),
+        ("global_nx", rng.choice([0, 1])),
+        ("EScaleVar", rng.choice([1, True, None])),
+        ("kDIScThr", rng.choice([1.0, 1, 1e-05, 1e22, -0.0])),
+        ("Q2bins", [j if j % 3 else j * 1.5 for j in range(1, n)]),          # ints and floats, scalar first
+        ("mixed_flags", [rng.choice([True, False, 0, 1, 2.0]) for _ in range(n)]),
+        ("runs", list(range(n))),                                                # long and homogeneous
+        ("labels", [1, 2, 3] + [rng.choice(["a", "1", "no", "inf"]) for _ in range(n)]),  # numbers first, then strings
+        ("short_mixed", [1, 2.0, True, None, "x"]),
+        ("nested", {"a": [1, 2.0, {"b": None}], "c": {"d": "x", "e": [[1, 2], [3.0]]}, "f": []}),
+        ("DataSets", [{"name": "HERA", "id": 1}, {"name": "NMC", "id": 2.0, "cuts": None}]),
+    ]
+    return rng.choice(pool)
 
 
 def wide_grid(n_low, n_mid, x_min=1e-4):
@@ -512,6 +544,11 @@ def huge_points(rng, n, xs=False):
     used at leading order on a three-node grid."""
     xsv = [round(0.06 + 0.0045 * k, 4) for k in range(200)]  # many distinct values: distinct cache/memo keys
     q2v = [2.0, 5.0, 10.0, 30.0, 90.0, 250.0, 1000.0, 17.5]
+    if rng.random() < 0.5:
+        # many distinct virtualities as well (a fixed-target data set has tens to hundreds): whatever is kept per
+        # Q2 in a runner then holds more than a few entries (adversarial seeded change
+        # c14-adversarial-propagator-ring-of-32: a 32-slot memo keyed by Q2)
+        q2v = [round(2.0 * 1.062 ** k, 3) for k in range(rng.choice([40, 120]))]
     pts = []
     for _ in range(n):
         pts.append(make_point(rng, rng.choice(xsv), rng.choice(q2v), rng.choice([0.2, 0.5, 0.9]) if xs else None,
